@@ -135,6 +135,8 @@ def strat_routes(tier):
         'phys': st.fixed_dictionaries({'dx': st.sampled_from([0.1, 0.25, 1.0, 0.037]), 'wvl': st.sampled_from([0.5, 0.6328, 1.55]),
                                        'efl': st.sampled_from([10.0, 100.0, 1234.5])}),
         'seed': U.seeds,
+        # decimal exponent of an overall amplitude factor (the transform is linear: a field of order 1e-12 or 1e+30 behaves like one of order 1)
+        'mag': st.sampled_from([0, 0, 0, 0, -9, -12, 9, -30, 30, -100, 100]),
     })
 
 
@@ -176,6 +178,12 @@ def check_routes(case, ctx):
     else:
         out_arg = U.tup(out)
     f = U.relayout(_cast(U.field(case['seed'], shape, case['kind']), dtype), case.get('layout', 'C'))   # same values, any memory layout
+    mag = case.get('mag', 0)
+    if f.dtype.kind in 'fc' and mag:
+        if prec == 32 or dtype in ('float32', 'complex64'):
+            mag = max(-12, min(12, mag))          # complex64 holds 1e+-38
+        f = f * f.dtype.type(10.0 ** mag)
+        ctx.label('mag:tiny' if mag < 0 else 'mag:huge')
     f_before = f.copy()
     fnum = f.astype(np.float64) if f.dtype.kind in 'bui' else f          # the oracle side works on the numeric values
     shifted = any(s != 0 for s in shift)
@@ -326,6 +334,8 @@ class ExecutorHistory:
         self.calls = []
         self.seen = {}     # key -> set of (prec, epoch) it was used under
         self.epoch = 0
+        self.buffers = {}  # (shape, dtype) -> the caller's array object, refilled in place for every later call of that shape
+        self.kept = []     # (result object, copy of it at the time, description): results handed out earlier stay what they were
 
     def close(self):
         self.config.precision = self.old
@@ -359,6 +369,14 @@ class ExecutorHistory:
         geo = op['geo']
         fn = op['fn']
         f = _cast(U.field(op['seed'], geo['shape'], 'complex'), op['dtype'])
+        bkey = (tuple(geo['shape']), op['dtype'])
+        if bkey in self.buffers:
+            # the caller re-uses one array object and overwrites its contents in place between calls
+            self.buffers[bkey][...] = f
+            f = self.buffers[bkey]
+            ctx.label('same-array-object-new-contents')
+        else:
+            self.buffers[bkey] = f
         Q, out, shift = U.tup(geo['Q']), U.tup(geo['out']), tuple(geo['shift'])
         key = (fn, U.canon(geo), op['dtype'])
         hist = self.seen.setdefault(key, set())
@@ -384,6 +402,9 @@ class ExecutorHistory:
         ref_p = U.ref_dft(f, U.as_pair(Q), outp, shift, fwd)
         ref_m = U.ref_dft(f, U.as_pair(Q), outp, (-shift[0], -shift[1]), fwd) if shifted else ref_p
         _cmp(ctx, got, ref_p, ref_m, shifted, _tol(self.prec, op['dtype']), 'history:vs-reference', what, _scale(f, Q))
+        for obj, copy_, desc in self.kept:
+            ctx.require(obj.shape == copy_.shape and bool(np.all(obj == copy_)), 'history:result-overwritten', 'the result of an earlier call (%s) changed during %s' % (desc, what))
+        self.kept = (self.kept + [(got, got.copy(), what)])[-3:]
 
 
 
